@@ -234,6 +234,10 @@ def bounded(tier, seed):
 		cases.append({'kind': 'cli', 'genomes': gs, 'gz': [rnd.random() < .4 for _ in gs], 'fmt': rnd.choice(['csv', 'csv', 'json']),
 		              'channel': rnd.choice(['positional', 'listfile', 'sigfile']), 'cores': rnd.choice([None, 1, 2, 5]),
 		              'progress': rnd.random() < .3, 'blank_lines': rnd.random() < .3})
+	# many more genomes than workers (8x, 16x, 32x: batch sizes at which work may be handed to workers in chunks)
+	for k, cores, channel in ((9, 1, 'positional'), (33, 2, 'listfile'), (len(allg), 6, 'positional')) + (() if tier == 'quick' else ((17, 1, 'listfile'), (len(allg), 3, 'positional'), (len(allg), 1, 'listfile'))):
+		gs = rnd.sample(allg, min(k, len(allg)))
+		cases.append({'kind': 'cli', 'genomes': gs, 'gz': [rnd.random() < .3 for _ in gs], 'fmt': 'csv', 'channel': channel, 'cores': cores, 'progress': False})
 	# different genomes whose derived labels coincide (same file name in two directories, two FASTA extensions, plain + gzip)
 	collide = [['run1/contigs.fasta', 'run2/contigs.fasta'], ['x.fasta', 'x.fna'], ['x.fa', 'x.fa.gz'], ['a/s.fasta', 'b/s.fasta', 'c/s.fasta.gz'], ['a/g.fasta', 'h.fasta', 'b/g.fna.gz']]
 	for i, nm in enumerate(collide if tier == 'quick' else collide * 4):
@@ -258,5 +262,5 @@ def bounded(tier, seed):
 			failures.append({'case': c, 'expected': r.get('expected'), 'actual': r.get('actual'), 'class': c['kind']})
 			if len(failures) >= 4:
 				break
-	return {'tool': 'real get_file_id on generated paths; real CLI in-process: batches vs. single-genome runs', 'bound': f'{len(cases)} cases ({n_cli} CLI batches of <= 8 genomes over 3 input channels)',
+	return {'tool': 'real get_file_id on generated paths; real CLI in-process: batches vs. single-genome runs', 'bound': f'{len(cases)} cases ({n_cli} CLI batches of <= 8 genomes over 3 input channels; batches of 9 .. {len(allg)} genomes with 1 .. 6 cores, i.e. 8x .. 50x more genomes than workers)',
 	        'cases': n, 'failures': failures, 'samples': sample}
